@@ -139,6 +139,24 @@ func (w *World) globalInits() map[string]*Term {
 						assignedElsewhere[g.Pkg.Pkg.Path()+"."+g.Name()] = true
 					}
 				}
+				// a map loaded from a package-level variable may only be read (lookup, range, len)
+				if u, ok := in.(*ssa.UnOp); ok && u.Op == token.MUL {
+					if g, ok := u.X.(*ssa.Global); ok {
+						if _, isMap := u.Type().Underlying().(*types.Map); isMap && u.Referrers() != nil {
+							for _, ref := range *u.Referrers() {
+								switch rr := ref.(type) {
+								case *ssa.Lookup, *ssa.Range, *ssa.DebugRef:
+								case *ssa.Call:
+									if bi, ok := rr.Call.Value.(*ssa.Builtin); !ok || bi.Name() != "len" {
+										assignedElsewhere[g.Pkg.Pkg.Path()+"."+g.Name()] = true
+									}
+								default:
+									assignedElsewhere[g.Pkg.Pkg.Path()+"."+g.Name()] = true
+								}
+							}
+						}
+					}
+				}
 				// address taken and passed on: treat as assignable
 				for _, op := range in.Operands(nil) {
 					if g, ok := (*op).(*ssa.Global); ok {
@@ -179,6 +197,25 @@ func (w *World) globalInits() map[string]*Term {
 				switch v.Kind {
 				case "varargs", "structval", "const", "func":
 					w.ginit[k] = v
+				case "alloc":
+					// a map literal: make + one update per entry, all keys constants or package-level variables
+					if _, isMap := v.Typ.Underlying().(*types.Map); isMap && strings.Contains(v.Name, "/makemap@") {
+						var kv []*Term
+						okLit := true
+						for _, ev := range s.Events {
+							if ev.Recv != v {
+								continue
+							}
+							if ev.Kind == "mapupdate" && len(ev.Args) == 2 && (ev.Args[0].Kind == "const" || ev.Args[0].Kind == "global") {
+								kv = append(kv, ev.Args[0], ev.Args[1])
+							} else if ev.Kind != "mapread" {
+								okLit = false
+							}
+						}
+						if okLit {
+							w.ginit[k] = mk("maplit", name, 0, v.Typ, kv...)
+						}
+					}
 				}
 			}
 		}
